@@ -2,7 +2,11 @@
 
 package generator
 
-import "github.com/EliCDavis/polyform/generator/graph"
+import (
+	"net/http"
+
+	"github.com/EliCDavis/polyform/generator/graph"
+)
 
 // VerifGraph exposes the app's graph instance (creating it like Run does) so that a
 // verification harness can drive the same object that Schema() and ApplySchema()
@@ -10,4 +14,16 @@ import "github.com/EliCDavis/polyform/generator/graph"
 func (a *App) VerifGraph() *graph.Instance {
 	a.initGraphInstance()
 	return a.graphInstance
+}
+
+// VerifServerHandler builds the HTTP handler the edit server uses for this app (what
+// Run's "edit"/"serve" commands do), with autosave to configPath when it is not empty.
+func (a *App) VerifServerHandler(configPath string) (http.Handler, error) {
+	a.initGraphInstance()
+	as := &AppServer{
+		app:        a,
+		autosave:   configPath != "",
+		configPath: configPath,
+	}
+	return as.Handler()
 }
